@@ -25,7 +25,7 @@ NEEDS = {
  "C10-6": "datagram whose conversion fails after a frame was dissected, then any datagram taking that message from the pool",
 }
 ROUND = {k: 4 for k in NEEDS}
-for rnd, fn in ((4, "seedneeds4.json"), (5, "seedneeds5.json"), (6, "seedneeds6.json"), (7, "seedneeds7.json"), (8, "seedneeds8.json"), (9, "seedneeds9.json"), (10, "seedneeds10.json"), (11, "seedneeds11.json")):
+for rnd, fn in ((4, "seedneeds4.json"), (5, "seedneeds5.json"), (6, "seedneeds6.json"), (7, "seedneeds7.json"), (8, "seedneeds8.json"), (9, "seedneeds9.json"), (10, "seedneeds10.json"), (11, "seedneeds11.json"), (12, "seedneeds12.json")):
     fp = os.path.join(os.path.dirname(os.path.abspath(__file__)), fn)
     if os.path.exists(fp):
         for k, v in json.load(open(fp)).items():
